@@ -152,3 +152,306 @@ Definition wire_topic (v : Z) (t : mtopic) : mtopic :=
 Definition wire_cluster (v : Z) (c : cluster) : cluster :=
   mkCluster (cl_brokers c) (if v <? 1 then -1 else cl_controller c)
             (map (wire_topic v) (cl_topics c)) (if v <? 2 then None else cl_id c).
+
+(* ------------------------------------------------------------------ *)
+(* Part B: produce / fetch fan-out, retry and merge (C27)              *)
+(* ------------------------------------------------------------------ *)
+
+(* A topic as the proxy holds it in kmsg structs: name and 16-byte id (zero when the
+   version carries names only; the name is "" in replies of id-carrying versions). *)
+Record topic := mkTopic { t_name : bytes; t_id : bytes }.
+
+Definition tpk : Type := bytes * Z.            (* (topic key, partition) *)
+Definition tpk_eqb (a b : tpk) : bool := bytes_eqb (fst a) (fst b) && (snd a =? snd b).
+Definition mem_tpk (x : tpk) (l : list tpk) : bool := existsb (tpk_eqb x) l.
+
+Definition subreq : Type := list (topic * list Z).    (* topics with their partitions *)
+Record group := mkGroup { g_addr : bytes; g_sub : subreq }.
+
+Definition rpart : Type := topic * Z * Z.             (* reply: topic, partition, error code *)
+Inductive outcome :=
+| Reply (parts : list rpart)
+| FailBefore        (* the connection breaks before the backend has the request *)
+| FailAfter         (* the backend has the request; the connection breaks before a reply *)
+| Unparseable.      (* the backend's reply does not decode *)
+
+(* fmt.Sprintf("id:%x", id) *)
+Definition hex_digit (n : Z) : Z := if n <? 10 then 48 + n else 87 + n.
+Definition hex_bytes (b : bytes) : bytes := flat_map (fun x => [hex_digit (x / 16); hex_digit (x mod 16)]) b.
+Definition is_empty (b : bytes) : bool := match b with [] => true | _ => false end.
+
+(* fetchTopicKey *)
+Definition fetch_key (name id : bytes) : bytes :=
+  if is_empty name then [105;100;58] ++ hex_bytes id else name.
+
+Fixpoint assoc (k : bytes) (l : list (bytes * bytes)) : bytes :=
+  match l with
+  | [] => []
+  | (a, b) :: l' => if bytes_eqb a k then b else assoc k l'
+  end.
+
+(* Static tables of one request: the proxy's mode (produce / fetch), topicNames
+   (id -> name; never holds the zero id), brokerAddrs (broker id -> addr), the static
+   backend list and backendRetries. *)
+Record env := mkEnv {
+  e_fetch : bool;
+  e_names : list (bytes * bytes);
+  e_addrs : list (bytes * bytes);
+  e_backends : list bytes;
+  e_retries : nat }.
+
+(* resolveTopicID over the static table *)
+Definition resolve (E : env) (id : bytes) : bytes := if is_zero_id id then [] else assoc id (e_names E).
+
+(* resolveFetchTopicNames (fetch only) *)
+Definition resolve_req (E : env) (r : subreq) : subreq :=
+  if e_fetch E
+  then map (fun tp : topic * list Z =>
+         let t := fst tp in
+         if is_empty (t_name t) && negb (is_zero_id (t_id t))
+         then (mkTopic (resolve E (t_id t)) (t_id t), snd tp) else tp) r
+  else r.
+
+(* key of a request / sub-request topic in failedPartitions, include and topicIndices *)
+Definition key (E : env) (t : topic) : bytes :=
+  if e_fetch E then fetch_key (t_name t) (t_id t) else t_name t.
+
+(* name under which a reply topic is retried / invalidated: forwardFetch resolves an
+   empty name through the id, forwardProduce uses the name *)
+Definition reply_name (E : env) (t : topic) : bytes :=
+  if e_fetch E then (if is_empty (t_name t) then resolve E (t_id t) else t_name t) else t_name t.
+
+Definition rkey (E : env) (t : topic) : bytes :=
+  if e_fetch E then fetch_key (reply_name E t) (t_id t) else t_name t.
+
+(* findOrAddTopicResponse / findOrAddFetchTopicResponse: does entry e answer query q *)
+Definition same (E : env) (e q : topic) : bool :=
+  if e_fetch E
+  then (if negb (is_zero_id (t_id q)) then bytes_eqb (t_id e) (t_id q) else bytes_eqb (t_name e) (t_name q))
+  else bytes_eqb (t_name e) (t_name q).
+
+(* routing table: (topic name, partition, broker id) *)
+Definition route : Type := bytes * Z * bytes.
+Fixpoint lookup_owner (rs : list route) (name : bytes) (p : Z) : bytes :=
+  match rs with
+  | [] => []
+  | (n, q, b) :: rs' => if bytes_eqb n name && (q =? p) then b else lookup_owner rs' name p
+  end.
+Definition invalidate (rs : list route) (name : bytes) (p : Z) : list route :=
+  filter (fun r : route => negb (bytes_eqb (fst (fst r)) name && (snd (fst r) =? p))) rs.
+
+(* address of the owning broker, "" when unknown (round-robin fallback) *)
+Definition owner_addr (E : env) (rs : list route) (t : topic) (p : Z) : bytes :=
+  if e_fetch E && is_empty (t_name t) then []
+  else let b := lookup_owner rs (t_name t) p in
+       if is_empty b then [] else assoc b (e_addrs E).
+
+(* ---- grouping ---- *)
+Definition flatten (r : subreq) : list (topic * Z) :=
+  flat_map (fun tp : topic * list Z => map (fun p => (fst tp, p)) (snd tp)) r.
+
+Fixpoint sub_insert (E : env) (s : subreq) (t : topic) (p : Z) : subreq :=
+  match s with
+  | [] => [(t, [p])]
+  | (t', ps) :: s' =>
+      if bytes_eqb (key E t') (key E t) then (t', ps ++ [p]) :: s'
+      else (t', ps) :: sub_insert E s' t p
+  end.
+
+Fixpoint grp_insert (E : env) (gs : list group) (addr : bytes) (t : topic) (p : Z) : list group :=
+  match gs with
+  | [] => [mkGroup addr [(t, [p])]]
+  | g :: gs' =>
+      if bytes_eqb (g_addr g) addr then mkGroup (g_addr g) (sub_insert E (g_sub g) t p) :: gs'
+      else g :: grp_insert E gs' addr t p
+  end.
+
+(* groupPartitionsByBroker / groupFetchPartitionsByBroker; incl = None: all partitions *)
+Definition included (E : env) (incl : option (list tpk)) (x : topic * Z) : bool :=
+  match incl with None => true | Some f => mem_tpk (key E (fst x), snd x) f end.
+
+Definition group_by (E : env) (rs : list route) (r : subreq) (incl : option (list tpk)) : list group :=
+  fold_left (fun gs (x : topic * Z) => grp_insert E gs (owner_addr E rs (fst x) (snd x)) (fst x) (snd x))
+            (filter (included E incl) (flatten r)) [].
+
+(* ---- connecting ---- *)
+Definition mem_bytes (x : bytes) (l : list bytes) : bool := existsb (bytes_eqb x) l.
+
+(* one pass of connectBackendExcluding's inner loop starting at index start *)
+Fixpoint scan_backends (dial : bytes -> bool) (tried : list bytes) (bs : list bytes) (n : nat) (start : Z) : option bytes :=
+  match n with
+  | O => None
+  | S n' =>
+      let a := nth (Z.to_nat (start mod zlen bs)) bs [] in
+      if negb (mem_bytes a tried) && dial a then Some a
+      else scan_backends dial tried bs n' (start + 1)
+  end.
+
+Fixpoint connect_excluding (E : env) (dial : bytes -> bool) (tried : list bytes) (retries : nat) (rr : Z) : option bytes * Z :=
+  match retries with
+  | O => (None, rr)
+  | S r' =>
+      let rr1 := rr + 1 in
+      match scan_backends dial tried (e_backends E) (length (e_backends E)) rr1 with
+      | Some a => (Some a, rr1)
+      | None => connect_excluding E dial tried r' rr1
+      end
+  end.
+
+(* connectForAddr *)
+Definition connect_for_addr (E : env) (dial : bytes -> bool) (addr : bytes) (tried : list bytes) (rr : Z) : option bytes * Z :=
+  if negb (is_empty addr) && negb (mem_bytes addr tried) && dial addr then (Some addr, rr)
+  else connect_excluding E dial tried (e_retries E) rr.
+
+(* the connect loop of fanOutProduce / fanOutFetch over the groups in iteration order *)
+Fixpoint connect_all (E : env) (dial : bytes -> bool) (gs : list group) (tried : list bytes) (rr : Z)
+  : list (group * option bytes) * Z :=
+  match gs with
+  | [] => ([], rr)
+  | g :: gs' =>
+      let '(r, rr1) := connect_for_addr E dial (g_addr g) tried rr in
+      let tried1 := match r with Some a => a :: tried | None => tried end in
+      let '(rest, rr2) := connect_all E dial gs' tried1 rr1 in
+      ((g, r) :: rest, rr2)
+  end.
+
+(* ---- merging ---- *)
+Definition merged : Type := list (topic * list (Z * Z)).   (* topic, [(partition, code)] *)
+
+Fixpoint add_part (E : env) (m : merged) (q : topic) (pc : Z * Z) : merged :=
+  match m with
+  | [] => [(q, [pc])]
+  | (e, es) :: m' => if same E e q then (e, es ++ [pc]) :: m' else (e, es) :: add_part E m' q pc
+  end.
+
+(* findOrAdd...TopicResponse with nothing appended *)
+Fixpoint ensure_topic (E : env) (m : merged) (q : topic) : merged :=
+  match m with
+  | [] => [(q, [])]
+  | (e, es) :: m' => if same E e q then m else (e, es) :: ensure_topic E m' q
+  end.
+
+(* addErrorForAllPartitions / addFetchErrorForAllPartitions *)
+Definition add_error_all (E : env) (m : merged) (s : subreq) (code : Z) : merged :=
+  fold_left (fun m (tp : topic * list Z) =>
+               fold_left (fun m p => add_part E m (fst tp) (p, code)) (snd tp) (ensure_topic E m (fst tp)))
+            s m.
+
+Definition sub_tps (E : env) (s : subreq) : list tpk :=
+  map (fun x : topic * Z => (key E (fst x), snd x)) (flatten s).
+
+Record logent := mkLog { l_attempt : Z; l_target : bytes; l_sub : subreq; l_out : outcome }.
+
+Record st := mkSt {
+  s_routes : list route;
+  s_rr : Z;
+  s_seen : list (bytes * Z);        (* requests received so far, per backend *)
+  s_merged : merged;
+  s_failed : list tpk;
+  s_log : list logent }.
+
+Fixpoint seen_count (a : bytes) (l : list (bytes * Z)) : Z :=
+  match l with
+  | [] => 0
+  | (b, n) :: l' => if bytes_eqb a b then n else seen_count a l'
+  end.
+Fixpoint seen_bump (a : bytes) (l : list (bytes * Z)) : list (bytes * Z) :=
+  match l with
+  | [] => [(a, 1)]
+  | (b, n) :: l' => if bytes_eqb a b then (b, n + 1) :: l' else (b, n) :: seen_bump a l'
+  end.
+
+(* the reply loop of forwardProduce / forwardFetch for one sub-response *)
+Definition process_part (E : env) (s : st) (x : rpart) : st :=
+  let '(t, p, code) := x in
+  if code =? ERR_NOT_LEADER
+  then let name := reply_name E t in
+       mkSt (if e_fetch E && is_empty name then s_routes s else invalidate (s_routes s) name p)
+            (s_rr s) (s_seen s) (s_merged s) (s_failed s ++ [(rkey E t, p)]) (s_log s)
+  else mkSt (s_routes s) (s_rr s) (s_seen s) (add_part E (s_merged s) t (p, code)) (s_failed s) (s_log s).
+
+(* r.err != nil *)
+Definition process_error (E : env) (last : bool) (s : st) (sub : subreq) : st :=
+  if e_fetch E && negb last
+  then mkSt (s_routes s) (s_rr s) (s_seen s) (s_merged s) (s_failed s ++ sub_tps E sub) (s_log s)
+  else mkSt (s_routes s) (s_rr s) (s_seen s) (add_error_all E (s_merged s) sub ERR_REQUEST_TIMED_OUT)
+            (s_failed s) (s_log s).
+
+Definition backend_fn : Type := Z -> bytes -> Z -> subreq -> outcome.  (* attempt, addr, n-th request there, sub-request *)
+
+(* send the sub-requests that got a connection (concurrently in Go; each backend gets at
+   most one per attempt), then handle connect errors first, results in work order *)
+Fixpoint send_all (backend : backend_fn) (k : Z) (work : list (group * option bytes)) (seen : list (bytes * Z))
+  : list (group * option (bytes * outcome)) * list (bytes * Z) :=
+  match work with
+  | [] => ([], seen)
+  | (g, None) :: w' => let '(rs, seen') := send_all backend k w' seen in ((g, None) :: rs, seen')
+  | (g, Some a) :: w' =>
+      let o := backend k a (seen_count a seen) (g_sub g) in
+      let '(rs, seen') := send_all backend k w' (seen_bump a seen) in
+      ((g, Some (a, o)) :: rs, seen')
+  end.
+
+Definition process_result (E : env) (last : bool) (k : Z) (s : st) (r : group * option (bytes * outcome)) : st :=
+  match snd r with
+  | None => process_error E last s (g_sub (fst r))
+  | Some (a, o) =>
+      let s1 := mkSt (s_routes s) (s_rr s) (s_seen s) (s_merged s) (s_failed s)
+                     (s_log s ++ [mkLog k a (g_sub (fst r)) o]) in
+      match o with
+      | Reply parts => fold_left (process_part E) parts s1
+      | _ => process_error E last s1 (g_sub (fst r))
+      end
+  end.
+
+Definition is_none {A} (o : option A) : bool := match o with None => true | Some _ => false end.
+
+(* one iteration of the attempt loop on the groups in map-iteration order *)
+Definition attempt (E : env) (dial : Z -> bytes -> bool) (backend : backend_fn) (last : bool) (k : Z)
+                   (s : st) (gs : list group) : st :=
+  let '(work, rr1) := connect_all E (dial k) gs [] (s_rr s) in
+  let '(results, seen1) := send_all backend k work (s_seen s) in
+  let ordered := filter (fun r : group * option (bytes * outcome) => is_none (snd r)) results ++
+                 filter (fun r : group * option (bytes * outcome) => negb (is_none (snd r))) results in
+  fold_left (process_result E last k) ordered
+            (mkSt (s_routes s) rr1 seen1 (s_merged s) [] (s_log s)).
+
+Definition ord_fn : Type := Z -> list group -> list group.   (* Go map iteration order per attempt *)
+
+Fixpoint loop (E : env) (dial : Z -> bytes -> bool) (backend : backend_fn) (ord : ord_fn) (req : subreq)
+              (fuel : nat) (k : Z) (s : st) (gs : list group) : st :=
+  match fuel with
+  | O => s
+  | S fuel' =>
+      let s1 := attempt E dial backend (match fuel' with O => true | _ => false end) k s (ord k gs) in
+      match s_failed s1 with
+      | [] => s1
+      | _ => match group_by E (s_routes s1) req (Some (s_failed s1)) with
+             | [] => s1
+             | gs' => loop E dial backend ord req fuel' (k + 1) s1 gs'
+             end
+      end
+  end.
+
+(* the loop after the attempts: failed partitions are answered NOT_LEADER_OR_FOLLOWER *)
+Definition tail (E : env) (req : subreq) (s : st) : merged :=
+  fold_left (fun m (tp : topic * list Z) =>
+     let t := fst tp in
+     if existsb (fun f : tpk => bytes_eqb (fst f) (key E t)) (s_failed s)
+     then fold_left (fun m p => if mem_tpk (key E t, p) (s_failed s) then add_part E m t (p, ERR_NOT_LEADER) else m)
+                    (snd tp) (ensure_topic E m t)
+     else m) req (s_merged s).
+
+Definition init_st (rs : list route) (rr : Z) : st := mkSt rs rr [] [] [] [].
+
+(* forwardProduce / forwardFetch (with the grouping done by handle*Routing) for maxRetries
+   = maxr; returns the merged response and the final state (log, routes) *)
+Definition forward (E : env) (dial : Z -> bytes -> bool) (backend : backend_fn) (ord : ord_fn) (maxr : nat)
+                   (rs : list route) (rr : Z) (req0 : subreq) : merged * st :=
+  let req := resolve_req E req0 in
+  let s := loop E dial backend ord req maxr 0 (init_st rs rr) (group_by E rs req None) in
+  (tail E req s, s).
+
+(* flat view of a merged response *)
+Definition merged_ents (m : merged) : list rpart :=
+  flat_map (fun e : topic * list (Z * Z) => map (fun pc : Z * Z => (fst e, fst pc, snd pc)) (snd e)) m.
